@@ -318,7 +318,23 @@ def fam_mixed_kinds2():
     return pt.Seq(f(pt.Int(3), pt.Bytes("q")), pt.Pop(g(pt.Int(2))), pt.Approve()), [("f", 2, 0), ("g", 1, 1)]
 
 
-REC_FAMILIES = [fam_fact, fam_fib_locals, fam_even_odd, fam_pending_operands, fam_none_rec, fam_bytes_rec, fam_byref,
+def fam_anytype():
+    """result type anytype: one value whose kind is only known at run time"""
+    @pt.Subroutine(pt.TealType.anytype)
+    def stored(key):
+        return pt.App.globalGet(key)
+
+    @pt.Subroutine(pt.TealType.anytype)
+    def pick(n, s):
+        x = pt.ScratchVar(pt.TealType.anytype)
+        return pt.Seq(x.store(pt.App.globalGet(s)), pt.If(n > pt.Int(0)).Then(x.store(pick(n - pt.Int(1), s))), x.load())
+    sv = pt.ScratchVar(pt.TealType.anytype)
+    return (pt.Seq(pt.Pop(stored(pt.Bytes("k"))), sv.store(pick(pt.Int(2), pt.Bytes("j"))), pt.Pop(sv.load()),
+                   pt.App.globalPut(pt.Bytes("o"), stored(pt.Bytes("k"))), pt.Approve()),
+            [("stored", 1, 1), ("pick", 2, 1)])
+
+
+REC_FAMILIES = [fam_anytype, fam_fact, fam_fib_locals, fam_even_odd, fam_pending_operands, fam_none_rec, fam_bytes_rec, fam_byref,
                 fam_mixed_kinds, fam_mixed_kinds2]
 
 
